@@ -2,7 +2,8 @@
    spec oracles (valid MAG, Markov equivalence by msep_dec, PAG of a MAG from the definition): C09/Oracle.v. *)
 From Coq Require Import List Arith Bool.
 From PG Require Import Base.ListSet Graph.MGraph C08.Model C09.Model C09.Oracle C09.Spec C09.Proofs C09.Bounded_n3 C09.Bounded_n4 C09.Bounded C09.Refuted C09.Cover C09.Ext
-                       C08.Spec C09.Component C09.Whole C09.WholeExample C09.ChordalDefs C09.Chordal_b5 C09.HypsB.
+                       C08.Spec C09.Component C09.Whole C09.WholeExample C09.ChordalDefs C09.Chordal_b5 C09.HypsB
+                       C08.Reflect C08.Chordal C08.ChordalOrient C09.ChordalAll.
 Import ListNotations.
 
 (* unbounded, every mark graph: nodes, adjacencies, arrowheads and tails kept, circles resolved, no circle left *)
@@ -99,3 +100,39 @@ Theorem pag_hyps_hold_on_pags_of_mags_bounded_3 : forall n m0, n <= 3 -> In m0 (
   pag_hypsb (pag_of_mag m0) = true /\ rounds_ok_b (pag_of_mag m0) = true.
 Proof. exact pag_hyps_hold_bounded_3. Qed.
 Print Assumptions pag_hyps_hold_on_pags_of_mags_bounded_3.
+
+(* ---- with the chordal orientation lemma of C08 (all sizes) ---- *)
+(* the brute-force chordality test implies the Prop (a perfect elimination ordering exists) *)
+Theorem chordalb_gives_peo : forall t, NoDup (V t) -> chordalb t = true -> chordal_g t.
+Proof. exact chordalb_sound. Qed.
+Print Assumptions chordalb_gives_peo.
+
+(* on a chordal circle component the FIRST hand-orientation is always extendable *)
+Theorem p2m_first_round_all_sizes : forall t u v, pwf t -> D t = [] -> chordal_g t -> has_u t u v = true -> vext (orient t u v).
+Proof. exact first_round_extendable. Qed.
+Print Assumptions p2m_first_round_all_sizes.
+
+(* the shape clauses with hypotheses: PAG invariants + chordal circle component + extendability of the rounds AFTER the first
+   (nothing when the first round already orients the component; the general case is Meek 1995 Thm 4, still open here) *)
+Theorem p2m_shape_all_sizes_chordal : forall g,
+  pag_hyps g -> pwf (temp_cpdag g) -> chordal_g (temp_cpdag g) ->
+  match U (temp_cpdag g) with
+  | [] => True
+  | (u, v) :: r => rounds_extendable (length r) (meek_model (orient (temp_cpdag g) u v))
+  end ->
+  let m := pag_to_mag_model g in
+  acyclic m /\
+  (forall a b, has_b m a b = true -> dpath m a b -> False) /\
+  (forall a c b, arrow_at m a c = true -> arrow_at m b c = true -> a <> b -> adjacent m a b = false ->
+                 arrow_at g a c = true /\ arrow_at g b c = true).
+Proof. exact p2m_shape_chordal. Qed.
+Print Assumptions p2m_shape_all_sizes_chordal.
+
+Theorem p2m_component_one_round : forall t, pwf t -> D t = [] -> chordal_g t ->
+  match U t with
+  | [] => True
+  | (u, v) :: _ => U (meek_model (orient t u v)) = []
+  end ->
+  let q := orient_all (length (U t)) t in U q = [] /\ acyclic q /\ vfree q.
+Proof. exact component_one_round. Qed.
+Print Assumptions p2m_component_one_round.
